@@ -29,6 +29,8 @@ CONSTANTS Readers,        \* set of reader task ids (integers 1..)
           MaxSessions,    \* sessions the writer performs
           QueriesPerReader,
           LockBeforeBump, \* TRUE = repaired order
+          DropSessions,   \* TRUE = the writer may also simply drop a session (Drop for InputSession:
+                          \* the commit runs in a spawned task that owns the phase guard)
           Emit            \* TRUE = print maximal behaviours (generator mode)
 
 W == 0  \* the writer task id
@@ -44,11 +46,12 @@ VARIABLES
     xval, xlv, xdirty,   \* stored state of X: value (0 = never computed), last verified, dirty edge X->A
     rpc, rts, rsnap, rq, \* per reader: pc, sampled timestamp, expected version, queries done
     wpc, sess,           \* writer pc, sessions done
+    spawned,   \* a dropped session's commit is still to be run by its spawned task (it holds lockW)
     bad,       \* a reader obtained a value that is not its snapshot's
     hist, done
 
 vars == <<ts, lockR, lockW, wq, inVal, committed, changed, xval, xlv, xdirty,
-          rpc, rts, rsnap, rq, wpc, sess, bad, hist, done>>
+          rpc, rts, rsnap, rq, wpc, sess, spawned, bad, hist, done>>
 
 Init ==
     /\ ts = 0 /\ lockR = {} /\ lockW = FALSE /\ wq = FALSE
@@ -58,7 +61,7 @@ Init ==
     /\ rts = [r \in Readers |-> -1]
     /\ rsnap = [r \in Readers |-> 0]
     /\ rq = [r \in Readers |-> 0]
-    /\ wpc = "idle" /\ sess = 0
+    /\ wpc = "idle" /\ sess = 0 /\ spawned = FALSE
     /\ bad = FALSE
     /\ hist = <<>> /\ done = FALSE
 
@@ -72,7 +75,7 @@ TrackedLock(r) ==       \* read_owned().await returned
     /\ lockR' = lockR \cup {r}
     /\ rpc' = [rpc EXCEPT ![r] = "locked"]
     /\ Step(r, "tracked_lock")
-    /\ UNCHANGED <<ts, lockW, wq, inVal, committed, changed, xval, xlv, xdirty, rts, rsnap, rq, wpc, sess, bad, done>>
+    /\ UNCHANGED <<ts, lockW, wq, inVal, committed, changed, xval, xlv, xdirty, rts, rsnap, rq, wpc, sess, spawned, bad, done>>
 
 TrackedSample(r) ==     \* timestamp.load(): the tracked engine is handed out
     /\ rpc[r] = "locked"
@@ -80,7 +83,7 @@ TrackedSample(r) ==     \* timestamp.load(): the tracked engine is handed out
     /\ rsnap' = [rsnap EXCEPT ![r] = committed]
     /\ rpc' = [rpc EXCEPT ![r] = "ready"]
     /\ Step(r, "tracked_sample")
-    /\ UNCHANGED <<ts, lockR, lockW, wq, inVal, committed, changed, xval, xlv, xdirty, rq, wpc, sess, bad, done>>
+    /\ UNCHANGED <<ts, lockR, lockW, wq, inVal, committed, changed, xval, xlv, xdirty, rq, wpc, sess, spawned, bad, done>>
 
 (* query X with the reader's timestamp: fast path / repair / compute        *)
 QueryX(r) ==
@@ -95,14 +98,14 @@ QueryX(r) ==
           /\ bad' = (bad \/ newval # rsnap[r])
     /\ rq' = [rq EXCEPT ![r] = @ + 1]
     /\ Step(r, "query")
-    /\ UNCHANGED <<ts, lockR, lockW, wq, inVal, committed, changed, rpc, rts, rsnap, wpc, sess, done>>
+    /\ UNCHANGED <<ts, lockR, lockW, wq, inVal, committed, changed, rpc, rts, rsnap, wpc, sess, spawned, done>>
 
 DropTracked(r) ==
     /\ rpc[r] = "ready" /\ rq[r] >= 1
     /\ lockR' = lockR \ {r}
     /\ rpc' = [rpc EXCEPT ![r] = "done"]
     /\ Step(r, "drop")
-    /\ UNCHANGED <<ts, lockW, wq, inVal, committed, changed, xval, xlv, xdirty, rts, rsnap, rq, wpc, sess, bad, done>>
+    /\ UNCHANGED <<ts, lockW, wq, inVal, committed, changed, xval, xlv, xdirty, rts, rsnap, rq, wpc, sess, spawned, bad, done>>
 
 ---------------------------------------------------------------------------
 (* writer *)
@@ -114,7 +117,7 @@ SessBump ==
     /\ ts' = ts + 1
     /\ wpc' = "bumped"
     /\ Step(W, "session_bump")
-    /\ UNCHANGED <<lockR, lockW, wq, inVal, committed, changed, xval, xlv, xdirty, rpc, rts, rsnap, rq, sess, bad, done>>
+    /\ UNCHANGED <<lockR, lockW, wq, inVal, committed, changed, xval, xlv, xdirty, rpc, rts, rsnap, rq, sess, spawned, bad, done>>
 
 SessRequest ==          \* write_owned() is called: the writer queues
     /\ \/ ~LockBeforeBump /\ wpc = "bumped"
@@ -122,16 +125,16 @@ SessRequest ==          \* write_owned() is called: the writer queues
     /\ wq' = TRUE
     /\ wpc' = "waiting"
     /\ Step(W, "session_request")
-    /\ UNCHANGED <<ts, lockR, lockW, inVal, committed, changed, xval, xlv, xdirty, rpc, rts, rsnap, rq, sess, bad, done>>
+    /\ UNCHANGED <<ts, lockR, lockW, inVal, committed, changed, xval, xlv, xdirty, rpc, rts, rsnap, rq, sess, spawned, bad, done>>
 
 SessLocked ==           \* write_owned().await returned
-    /\ wpc = "waiting" /\ lockR = {}
+    /\ wpc = "waiting" /\ lockR = {} /\ ~lockW
     /\ lockW' = TRUE /\ wq' = FALSE
     /\ ts' = IF LockBeforeBump THEN ts + 1 ELSE ts
     /\ wpc' = "locked"
     /\ changed' = FALSE
     /\ Step(W, "session_locked")
-    /\ UNCHANGED <<lockR, inVal, committed, xval, xlv, xdirty, rpc, rts, rsnap, rq, sess, bad, done>>
+    /\ UNCHANGED <<lockR, inVal, committed, xval, xlv, xdirty, rpc, rts, rsnap, rq, sess, spawned, bad, done>>
 
 SetInput ==
     /\ wpc = "locked"
@@ -139,7 +142,7 @@ SetInput ==
     /\ changed' = TRUE
     /\ wpc' = "set"
     /\ Step(W, "set")
-    /\ UNCHANGED <<ts, lockR, lockW, wq, committed, xval, xlv, xdirty, rpc, rts, rsnap, rq, sess, bad, done>>
+    /\ UNCHANGED <<ts, lockR, lockW, wq, committed, xval, xlv, xdirty, rpc, rts, rsnap, rq, sess, spawned, bad, done>>
 
 Commit ==               \* commit(): dirty propagation, submit, release the lock
     /\ wpc \in {"locked", "set"}
@@ -149,23 +152,45 @@ Commit ==               \* commit(): dirty propagation, submit, release the lock
     /\ sess' = sess + 1
     /\ wpc' = "idle"
     /\ Step(W, "commit")
-    /\ UNCHANGED <<ts, lockR, wq, inVal, changed, xval, xlv, rpc, rts, rsnap, rq, bad, done>>
+    /\ UNCHANGED <<ts, lockR, wq, inVal, changed, xval, xlv, rpc, rts, rsnap, rq, spawned, bad, done>>
+
+(* the session is dropped without commit(): Drop spawns a task that takes the  *)
+(* transaction and the guard out of the session, runs commit_internal and only *)
+(* then releases the guard; the writer itself goes on at once                  *)
+DropSession ==
+    /\ DropSessions
+    /\ wpc \in {"locked", "set"}
+    /\ spawned' = TRUE
+    /\ sess' = sess + 1
+    /\ wpc' = "idle"
+    /\ Step(W, "drop_session")
+    /\ UNCHANGED <<ts, lockR, lockW, wq, inVal, committed, changed, xval, xlv, xdirty, rpc, rts, rsnap, rq, bad, done>>
+
+SpawnedCommit ==        \* the spawned task: dirty propagation, submit, release the lock
+    /\ spawned
+    /\ xdirty' = (xdirty \/ (changed /\ xval # 0))
+    /\ committed' = inVal
+    /\ lockW' = FALSE
+    /\ spawned' = FALSE
+    /\ Step(W, "spawned_commit")
+    /\ UNCHANGED <<ts, lockR, wq, inVal, changed, xval, xlv, rpc, rts, rsnap, rq, wpc, sess, bad, done>>
 
 ---------------------------------------------------------------------------
 Terminal ==
     /\ \A r \in Readers : rpc[r] = "done"
-    /\ wpc = "idle" /\ sess = MaxSessions
+    /\ wpc = "idle" /\ sess = MaxSessions /\ ~spawned
 
 Finish ==
     /\ Terminal /\ ~done
     /\ done' = TRUE
     /\ IF Emit THEN PrintT(ToJson([steps |-> hist, bad |-> bad])) ELSE TRUE
     /\ UNCHANGED <<ts, lockR, lockW, wq, inVal, committed, changed, xval, xlv, xdirty,
-                   rpc, rts, rsnap, rq, wpc, sess, bad, hist>>
+                   rpc, rts, rsnap, rq, wpc, sess, spawned, bad, hist>>
 
 Next ==
     \/ \E r \in Readers : TrackedLock(r) \/ TrackedSample(r) \/ QueryX(r) \/ DropTracked(r)
     \/ SessBump \/ SessRequest \/ SessLocked \/ SetInput \/ Commit
+    \/ DropSession \/ SpawnedCommit
     \/ Finish
 
 Spec == Init /\ [][Next]_vars
@@ -175,10 +200,13 @@ FairSpec == Spec /\ WF_vars(Next)
 ReaderSeesSnap == ~bad
 (* no reader holds the lock while the writer does *)
 Exclusion == ~(lockW /\ lockR # {})
+(* a dropped session stays exclusive until its spawned commit has run: nobody is handed a tracked     *)
+(* engine, and no new session is entered, between the drop and the end of the propagation            *)
+DroppedStaysExclusive == spawned => (lockW /\ lockR = {} /\ wpc \in {"idle", "bumped", "waiting"})
 (* every mix makes progress *)
 Progress == <>done
 
 (* hist is bookkeeping for the generator: not part of the model state *)
 View == <<ts, lockR, lockW, wq, inVal, committed, changed, xval, xlv, xdirty,
-          rpc, rts, rsnap, rq, wpc, sess, bad, done>>
+          rpc, rts, rsnap, rq, wpc, sess, spawned, bad, done>>
 =============================================================================
